@@ -1,22 +1,31 @@
 ------------------------------- MODULE Trace_Eq -------------------------------
 (* C12: validation of recorded answers of the equality checkers.
    pairc : two circuits; S1 = CircSem(c1), S2 = CircSem(c2) computed once (ground truth)
-   eq    : equal_circuit_with_options / equal_graph_with_options (answer equal/notequal/unknown)
+   pairg : two unitary DIAGRAMS that are not plain to_graph outputs (simplified by one of the strategies, built with the
+           simplify-while-building / post-selected-CCZ options, colour-changed, renamed, multiplied by the phase i);
+           ground truth S1 = Den(g1), S2 = Den(g2): the specification's reference denotation of the logged diagrams
+   eq    : equal_circuit_with_options / equal_circuit / equal_graph_with_options / equal_graph
+           (answer equal/notequal/unknown; phase = was a global phase allowed, TRUE for the two default wrappers)
            L2 Def: a definite answer is never wrong
    eqt   : equal_circuit_tensor / equal_graph_tensor     L2 DefTensor: true exactly for identical tensors
-   eqdim : equal_circuit_dim                             L2: true exactly for equal arities *)
+   eqdim : equal_circuit_dim / equal_graph_dim           L2: true exactly for equal arities *)
 EXTENDS TraceLib, ToGraph, Equality, FiniteSets, FiniteSetsExt
-VARIABLES l, c1, c2, s1, s2, viol, drift, stats
-vars == <<l, c1, c2, s1, s2, viol, drift, stats>>
-E0 == [n |-> 0, gates |-> <<>>]
-Init == l = 1 /\ c1 = E0 /\ c2 = E0 /\ s1 = <<>> /\ s2 = <<>> /\ viol = <<>> /\ drift = <<>>
-        /\ stats = [pairs |-> 0, answers |-> 0, equal |-> 0, notequal |-> 0, unknown |-> 0, nontrivial |-> 0]
-Arity == c1.n = c2.n
+VARIABLES l, ar, s1, s2, viol, drift, stats
+vars == <<l, ar, s1, s2, viol, drift, stats>>
+Init == l = 1 /\ ar = TRUE /\ s1 = <<>> /\ s2 = <<>> /\ viol = <<>> /\ drift = <<>>
+        /\ stats = [pairs |-> 0, answers |-> 0, equal |-> 0, notequal |-> 0, unknown |-> 0, nontrivial |-> 0,
+                    graph_pairs |-> 0, graph_answers |-> 0, default_wrapper |-> 0, dim_calls |-> 0]
+Arity == ar
+B(x) == IF x THEN 1 ELSE 0
 Step(e) ==
   CASE e.k = "pairc" ->
          LET a == CircFromAbs(e.c1)  b == CircFromAbs(e.c2) IN
-         /\ c1' = a /\ c2' = b /\ s1' = CircSem(a) /\ s2' = CircSem(b)
+         /\ ar' = (a.n = b.n) /\ s1' = CircSem(a) /\ s2' = CircSem(b)
          /\ stats' = [stats EXCEPT !.pairs = @ + 1] /\ UNCHANGED <<viol, drift>>
+    [] e.k = "pairg" ->
+         LET a == FromAbs(e.g1)  b == FromAbs(e.g2) IN
+         /\ ar' = SameArity(a, b) /\ s1' = Den(a) /\ s2' = Den(b)
+         /\ stats' = [stats EXCEPT !.pairs = @ + 1, !.graph_pairs = @ + 1] /\ UNCHANGED <<viol, drift>>
     [] e.k = "eq" ->
          /\ viol' = IF e.ret = "panic" THEN Append(viol, <<l, "NoPanic", e.fn>>)
                     ELSE IF Def(e.ret, Arity, s1, s2, e.phase) THEN viol ELSE Append(viol, <<l, "Def", e.fn, e.ret>>)
@@ -25,15 +34,17 @@ Step(e) ==
          /\ stats' = [stats EXCEPT !.answers = @ + 1, !.equal = @ + (IF e.ret = "equal" THEN 1 ELSE 0),
                                    !.notequal = @ + (IF e.ret = "notequal" THEN 1 ELSE 0),
                                    !.unknown = @ + (IF e.ret = "unknown" THEN 1 ELSE 0),
-                                   !.nontrivial = @ + (IF e.ret # "unknown" THEN 1 ELSE 0)]
-         /\ UNCHANGED <<c1, c2, s1, s2>>
+                                   !.nontrivial = @ + (IF e.ret # "unknown" THEN 1 ELSE 0),
+                                   !.default_wrapper = @ + B(e.fn \in {"graph_default", "circuit_default"}),
+                                   !.graph_answers = @ + B(e.fn \in {"graph", "graph_default", "graph_simplified"})]
+         /\ UNCHANGED <<ar, s1, s2>>
     [] e.k = "eqt" ->
          /\ viol' = IF e.res = "panic" THEN Append(viol, <<l, "NoPanic", e.fn>>)
                     ELSE IF DefTensor(e.ret, Arity, s1, s2) THEN viol ELSE Append(viol, <<l, "DefTensor", e.fn>>)
-         /\ stats' = [stats EXCEPT !.answers = @ + 1, !.nontrivial = @ + 1] /\ UNCHANGED <<c1, c2, s1, s2, drift>>
+         /\ stats' = [stats EXCEPT !.answers = @ + 1, !.nontrivial = @ + 1] /\ UNCHANGED <<ar, s1, s2, drift>>
     [] e.k = "eqdim" ->
-         /\ viol' = IF e.res = "ok" /\ e.ret = Arity THEN viol ELSE Append(viol, <<l, "DimOK">>)
-         /\ stats' = [stats EXCEPT !.answers = @ + 1] /\ UNCHANGED <<c1, c2, s1, s2, drift>>
+         /\ viol' = IF e.res = "ok" /\ e.ret = Arity THEN viol ELSE Append(viol, <<l, "DimOK", e.fn>>)
+         /\ stats' = [stats EXCEPT !.answers = @ + 1, !.dim_calls = @ + 1] /\ UNCHANGED <<ar, s1, s2, drift>>
 Next == \/ /\ l <= NLines /\ Step(Rec[l]) /\ l' = l + 1
-        \/ /\ l = NLines + 1 /\ Report(l, viol, drift, stats) /\ l' = l + 1 /\ UNCHANGED <<c1, c2, s1, s2, viol, drift, stats>>
+        \/ /\ l = NLines + 1 /\ Report(l, viol, drift, stats) /\ l' = l + 1 /\ UNCHANGED <<ar, s1, s2, viol, drift, stats>>
 =============================================================================
